@@ -25,3 +25,9 @@ pub mod schema_generated;
 pub mod header;
 
 pub use schema_generated as schema;
+
+/// Verification hooks (only compiled with `--cfg rten_verif`): re-exports of
+/// crate-private items so an external harness can call them directly.
+#[cfg(rten_verif)]
+#[doc(hidden)]
+pub mod verif {}
